@@ -120,7 +120,13 @@ pub fn run(args: &[String]) {
                 guarded(|| tipv(&t.clone().scale_by(f))).unwrap_or(json!("panic"))
             }
             "shift" | "clone_shifted" => {
-                let off = (rng.unit() - 0.5) * 2000.0;
+                // ordinary offsets, and ones far below the m/z scale (a "nothing to move" shortcut must not swallow them)
+                let off = match rng.below(8) {
+                    0 => (rng.unit() - 0.5) * 2e-9,
+                    1 => *rng.pick(&[5e-10, -5e-10, 1e-12, -3e-11, 1e-6, 0.000549, -1.007276, 0.0]),
+                    2 => (rng.unit() - 0.5) * 2e-5,
+                    _ => (rng.unit() - 0.5) * 2000.0,
+                };
                 rec["args"] = json!([hexf(off)]);
                 if op == "shift" { guarded(|| tipv(&t.clone().shift(off))).unwrap_or(json!("panic")) }
                 else { guarded(|| tipv(&t.clone_shifted(off))).unwrap_or(json!("panic")) }
